@@ -75,6 +75,10 @@ LIBC = {
     "getpid": {}, "time": {}, "clock_gettime": {"w": [(1, 1)]}, "pthread_mutex_lock": {"w": [(0, 1)]}, "pthread_mutex_unlock": {"w": [(0, 1)]},
     "pthread_once": {"w": [(0, 1)]}, "__builtin_mul_overflow": {"w": [(2, 1)]}, "__builtin_add_overflow": {"w": [(2, 1)]}, "__builtin_sub_overflow": {"w": [(2, 1)]},
     "__builtin_unreachable": {}, "__builtin_constant_p": {}, "__builtin_object_size": {},
+    "__builtin_isnormal": {}, "__builtin_isfinite": {}, "__builtin_fpclassify": {}, "__builtin_signbit": {}, "__builtin_signbitf": {}, "__builtin_isnan": {},
+    "__builtin_isinf": {}, "isnormal": {}, "isfinite": {}, "fpclassify": {}, "signbit": {}, "copysign": {}, "copysignf": {}, "ldexp": {}, "fmod": {},
+    "floor": {}, "ceil": {}, "round": {}, "trunc": {}, "nextafter": {}, "nextafterf": {}, "fmin": {}, "fmax": {}, "sqrt": {}, "pow": {}, "__builtin_nan": {},
+    "__builtin_nanf": {}, "__fpclassify": {}, "__isnan": {}, "__finite": {}, "__signbit": {}, "llabs": {}, "labs": {}, "frexp": {"w": [(1, 1)]},
 }
 
 
